@@ -108,6 +108,21 @@ class C05(core.Check):
                             {'case': {'spec': spec, 'payload': 'int', 'ops': [op]}, 'real': exp, 'model': rep})
         except Exception as e:
             report['broken'].append(f'slice box: driver unavailable ({e})')
+        # _batched_arange: real helper vs its docstring model vs the literal transcription
+        import torch
+        from torch_frame.data.multi_tensor import _batched_arange
+        counts = [[rng.choice([0, 0, 1, 2, 3, 5]) for _ in range(rng.randint(0, 7))] for _ in range(300)]
+        try:
+            reps = core.Driver(self.driver).ask([{'cmd': 'ba', 'count': c} for c in counts])
+            nbad = 0
+            for c, rep in zip(counts, reps):
+                b, a = _batched_arange(torch.tensor(c, dtype=torch.long))
+                if not rep['agree'] or rep['batch'] != b.tolist() or rep['arange'] != a.tolist():
+                    nbad += 1
+                    report['broken'].append(f'correspondence (_batched_arange): count={c} model={rep} code={(b.tolist(), a.tolist())}')
+            report['extra']['batched_arange'] = {'cases': len(counts), 'disagreements': nbad}
+        except Exception as e:
+            report['broken'].append(f'_batched_arange comparison unavailable ({e})')
         report['extra']['slice_box'] = {'cases': len(reqs), 'bounds': f'-{B}..{B} and None', 'steps': str(steps),
                                         'sizes': str(list(sizes)), 'exhaustive': True, 'disagreements': bad}
 
